@@ -17,6 +17,7 @@ EXPLANATION = (
     "path is seek(Current(-1)) in the flag-subcommand branch, followed by loop exit. R1.5 ErrorKind::as_str table. "
     "R1.4b worklist termination: every pop/push worklist loop on the parse path either guards its pushes with a visited set that receives the same element (unroll_arg_requires), or is listed with the validity-gate assertion that excludes cycles, and that assertion is found in assert_app with its diverging false edge (unroll_args_in_group: every member of a group must be an ARGUMENT id, so groups cannot nest). "
     "NOT decided: that the audited invariants hold for every command the debug gate accepts; termination of other loops."
+    ' R1.1 lemma: the name handed to the unwrapped _build_subcommand in parse_help_subcommand is find_subcommand(..).get_name() on the same command.'
 )
 TRUSTED = ["rustc MIR", "clapfacts", "lib/vset.py", "lib/panics.py discharge rules", "audit/panic.tsv (each entry read, one reason per line)"]
 ASSUMPTIONS = ["user-supplied value parsers / closures do not panic", "sums of lengths, counters and small constants do not overflow usize",
